@@ -14,6 +14,10 @@ Streams:
               sub-second clock offsets around ceil_seconds
   udp_wire    one REAL TrackerUdp + UdpRouter announcing to an in-process BEP-15 socket: event code and
               downloaded/left/uploaded fields of the 98-byte announce packet for every client event
+  http        one REAL TrackerHttp + curl against an in-process HTTP tracker, the main thread's callback queue run by
+              hand: replies whose callback is still queued when the client issues the next event
+  download    the REAL torrent::Download (start / stop / manual_request / send_completed, harness/c13d.cc on the
+              session harness) with uploads between sessions: figures handed to the tracker worker
   exhaustive  (thorough) every op list of length <= 5 over a 10-op alphabet for 2 trackers / 2 tiers
 """
 import itertools
@@ -64,6 +68,19 @@ HAND = [
     # no reply: the worker's own timeout (HTTP 60 s, UDP 15+30+45 s) arrives as a failure much later; slow reply
     "T 0 G 2 0 1 ; en ss ad:3000000 ad:60000000 fl:0 nx ad:90000000 fl:b nx ad:600000000 ok:b:1800:600:0 nx",
     "T 0 G 1 0 ; en ss ad:3600000000 ok:0:1800:600:0 nx ad:7200000000 fl:0 nx",
+    # scrapes: a due announce replaces a scrape in flight on tier 0 (tier 1 untouched); 600 s scrape gap; scrape reply
+    "T 0 G 2 0s 1 ; en nx ok:0:1800:600:0 ad:1790000000 sr:0 ad:0 ad:15000000 ok:b:1800:600:0",
+    "T 0 G 1 0s ; en nx ok:0:1800:600:0 ad:1790000000 sr:0 ad:0 nx ok:0:1800:600:0 nx",
+    "T 0 G 3 0s 0 1s ; en ss sr:5 ok:b:1800:600:0 nxs fl:b nxs sr:0 ad:0 ok:b:1:1:1 ok:b:1:1:1 sr:0 ad:0 nx dfl:b sr:0 ad:0 dr",
+    "T 0 G 2 0s 1s ; en ss ok:b:1800:600:0 sr:0 ad:0 ok:b:0:0:0 ok:b:0:0:0 ad:599000000 sr:0 ad:0 ad:1000000 sr:0 ad:0 fl:b fl:b sr:0 ad:0 sp di sr:0 ad:0",
+    "T 0 G 2 0s 0s ; sr:0 ad:0 en sr:0 ad:0 nx td:0 sr:0 ad:0 mr ss",
+    # timer and scrape task due at the same instant
+    "T 0 G 1 0s ; en sr:0 ad:0 ok:b:600:300:0 ok:b:600:300:0 sr:600 nx nx ok:b:600:300:0",
+    # a worker's result callback still queued for the main thread when the client issues a new event (cancelled),
+    # when a timer fires, when another reply arrives
+    "T 0 G 1 0 ; en nx dok:0:1800:600:0 ss dr fl:0 nx",
+    "T 0 G 2 0 1 ; en ss dfl:0 mr dr nx dok:b:1800:600:0 sc dr dr",
+    "T 0 G 2 0 1 ; en ss dfl:0 ad:3000000 dr dok:b:900:300:0 nx dr sp di dr",
     # unsorted insertion order, sparse tier numbers
     "T 0 G 4 5 0 5 2 ; en ss fl:b fl:b fl:b fl:b nx nx nx nx",
     # tracker disabled while in flight, reply still counted
@@ -144,7 +161,11 @@ def client_stream(r, n):
     pfail = r.choice((0.1, 0.3, 0.5, 0.8, 0.95))
     while len(ops) < n:
         x = r.random()
-        if not active:
+        if active and r.random() < 0.10:
+            ops.append(rand_scrape_op(r))
+        elif active and r.random() < 0.08:
+            ops.append(rand_deferred(r, k, pfail))
+        elif not active:
             x2 = r.random()
             ops += ["STK"] if x2 < 0.1 else ["ek"] if x2 < 0.15 else ["ST"] if x2 < 0.55 else ["en", "ss"] if x2 < 0.95 else ["ek", "ss"]
             active = True
@@ -162,9 +183,11 @@ def client_stream(r, n):
             ops.append("%s:%d" % (r.choice(("td", "te")), r.randrange(k)))
         elif x < 0.89:
             ops.append("cy:%d" % r.choice(groups + [9]))
-        elif x < 0.897:
-            ops.append("in:%d" % r.choice(groups + [0, max(groups) + 1]))
+        elif x < 0.893:
+            ops.append("in:%d%s" % (r.choice(groups + [0, max(groups) + 1]), r.choice(("", "", "s"))))
             k += 1
+        elif x < 0.897:
+            ops.append("STB")
         elif x < 0.905:
             ops.append("bl:%d:%d" % (r.choice((0, 500000000, 10 ** 9, r.randrange(10 ** 9))), r.choice((0, 500000000, r.randrange(10 ** 9)))))
         elif x < 0.92:
@@ -180,7 +203,7 @@ def client_stream(r, n):
     return groups, ops[:n + 1]
 
 
-PRIMS = ["en", "ek", "di", "cl", "ss", "sc", "su", "mr", "rq", "sq", "SPDI", "ST", "SP", "STK", "SPK"]
+PRIMS = ["en", "ek", "di", "cl", "ss", "sc", "su", "mr", "rq", "sq", "SPDI", "ST", "SP", "STK", "SPK", "STB"]
 
 
 def primitive_stream(r, n):
@@ -199,9 +222,13 @@ def primitive_stream(r, n):
             ops.append(rand_advance(r))
         elif x < 0.95:
             ops.append("%s:%d" % (r.choice(("td", "te")), r.randrange(k + 1)))
-        elif x < 0.97:
-            ops.append("in:%d" % r.randrange(4))
+        elif x < 0.96:
+            ops.append("in:%d%s" % (r.randrange(4), r.choice(("", "s"))))
             k += 1
+        elif x < 0.965:
+            ops.append(rand_scrape_op(r))
+        elif x < 0.975:
+            ops.append(rand_deferred(r, k, pfail))
         else:
             ops.append("cy:%d" % r.randrange(4))
     return groups, ops
@@ -260,11 +287,97 @@ def udp_cases(r, n):
     return out
 
 
-def line(groups, ops, t0=0):
-    return "T %d G %d %s ; %s" % (t0, len(groups), " ".join(map(str, groups)), " ".join(ops))
+DL_HAND = [
+    # real Download::start/stop (harness/c13d.cc): restart after transfer must report 0 / 0 again
+    "D 49152 16384 ; start ok up:50000 stop ok start ok up:1234 mr",
+    "D 49152 16384 ; starts mr startk stop",
+    "D 49152 16384 ; start fl up:7 mr cmp ok stop stop start up:9 fl mr ok stops startk mr ok cmp",
+    "D 49152 16384 ; up:5 start ok stop ok up:3 startk ok up:1 mr ok stop ok start",
+]
 
 
-EX_ALPHA = ["ST", "ss", "SP", "sc", "mr", "rq", "fl:b", "ok:b:600:3000:0", "nx", "td:0", "in:0"]
+def download_cases(r, n):
+    out = list(DL_HAND)
+    for _ in range(n):
+        ops = []
+        for _ in range(r.randrange(3, 14)):
+            x = r.random()
+            if x < 0.22:
+                ops.append(r.choice(("start", "start", "start", "startk", "starts")))
+            elif x < 0.36:
+                ops.append(r.choice(("stop", "stop", "stops")))
+            elif x < 0.56:
+                ops.append("up:%d" % r.choice((1, 1234, 50000, 2 ** 32, r.randrange(10 ** 9))))
+            elif x < 0.8:
+                ops.append(r.choice(("ok", "ok", "fl")))
+            elif x < 0.93:
+                ops.append("mr")
+            else:
+                ops.append("cmp")
+        out.append("D 49152 16384 ; " + " ".join(ops))
+    return out
+
+
+HTTP_HAND = [
+    # real TrackerHttp, main thread drained by hand: a reply whose callback is still queued when the client issues a
+    # new event must NOT count as the acceptance of that event (TrackerHttp::close_directly -> remove_events)
+    "H 11 22 33 ; en nx ok ss dr fl dr nx",
+    "H 1 2 3 ; en ss ok dr nx",
+    "H 5 6 7 ; en nx ok dr ss ok sc dr fl dr nx ok dr",
+    "H 0 0 0 ; en ss fl mr dr nx ok dr sp",
+]
+
+
+def http_cases(r, n):
+    out = list(HTTP_HAND)
+    for _ in range(n):
+        ops = ["en"]
+        pending = False
+        for _ in range(r.randrange(3, 9)):
+            x = r.random()
+            if x < 0.3:
+                ops.append(r.choice(("ss", "sc", "mr", "ss")))
+            elif x < 0.55 and not pending:
+                ops.append(r.choice(("ok", "ok", "fl")))
+                pending = True
+            elif x < 0.8:
+                ops.append("dr")
+                pending = False
+            else:
+                ops.append("nx")
+        ops.append("dr")
+        out.append("H %d %d %d ; %s" % (r.randrange(1000), r.randrange(1000), r.randrange(1000), " ".join(ops)))
+    return out
+
+
+def line(groups, ops, t0=0, scr=None):
+    toks = [str(g) + ("s" if scr and i < len(scr) and scr[i] else "") for i, g in enumerate(groups)]
+    return "T %d G %d %s ; %s" % (t0, len(groups), " ".join(toks), " ".join(ops))
+
+
+def rand_scrapable(r, groups):
+    p = r.choice((0.0, 0.3, 0.6, 1.0))
+    return [r.random() < p for _ in groups]
+
+
+def rand_scrape_op(r):
+    x = r.random()
+    if x < 0.55:
+        return "sr:%d" % r.choice((0, 0, 1, 5, 10, 590, 599, 600, 601, 1790, 1800))
+    return "nxs"
+
+
+def rand_deferred(r, k, pfail):
+    x = r.random()
+    if x < 0.45:
+        return "dr"
+    tgt = rand_target(r, k)
+    if r.random() < pfail:
+        return "dfl:%s" % tgt if r.random() < 0.8 else "dfi:%s:%d:%d" % (tgt, rand_iv(r), rand_mv(r))
+    return "dok:%s:%d:%d:0" % (tgt, rand_iv(r), rand_mv(r))
+
+
+EX_ALPHA = ["ST", "ss", "SP", "sc", "mr", "rq", "fl:b", "ok:b:600:3000:0", "nx", "td:0", "in:0s", "sr:0", "dok:b:600:300:0", "dr"]
 
 
 def gen(seed, tier):
@@ -288,22 +401,28 @@ def gen(seed, tier):
     nclient, nprim = (1500, 700) if tier == "quick" else (12000, 6000)
     for _ in range(nclient):
         g, ops = client_stream(r, r.choice((8, 15, 25, 40, 60)))
-        cases.append(line(g, ops, r.choice((0, 0, 1, 999999, r.randrange(1000000)))))
+        cases.append(line(g, ops, r.choice((0, 0, 1, 999999, r.randrange(1000000))), rand_scrapable(r, g)))
         stats["client"] += 1
     for _ in range(nprim):
         g, ops = primitive_stream(r, r.choice((6, 12, 25, 60)))
-        cases.append(line(g, ops, r.choice((0, r.randrange(1000000)))))
+        cases.append(line(g, ops, r.choice((0, r.randrange(1000000))), rand_scrapable(r, g)))
         stats["primitive"] += 1
     for u in udp_cases(r, 25 if tier == "quick" else 200):
         cases.append(u)
         stats["udp_wire"] = stats.get("udp_wire", 0) + 1
+    for hcase in http_cases(r, 6 if tier == "quick" else 40):
+        cases.append(hcase)
+        stats["http_stale_callback"] = stats.get("http_stale_callback", 0) + 1
+    for d in download_cases(r, 40 if tier == "quick" else 400):
+        cases.append(d)
+        stats["download_api"] = stats.get("download_api", 0) + 1
     if tier != "quick":
         for n in range(1, 6):
             for tup in itertools.product(EX_ALPHA, repeat=n):
                 ops = []
                 for o in tup:
                     ops += ["sp", "di"] if o == "SPDI" else [o]
-                cases.append(line([0, 1], ops))
+                cases.append(line([0, 1], ops, 0, [True, False]))
                 stats["exhaustive"] += 1
         stats["exhaustive_scope"] = "all op lists of length <= 5 over %r, 2 trackers in 2 tiers" % (EX_ALPHA,)
     hist = {}
